@@ -80,7 +80,11 @@ class VerifyMixin(object):
         st.old = old
         self.covers.append(("%s/cover:pre" % self.unit, [list(CTX.axioms) + list(st.pc)]))
         mark = CTX.counter_mark()
-        outs = self.exec_block(fn.body, st.copy() if c.self_compose else st)
+        if c.skip_body:
+            self.notes.append("%s: only the named sub-expression is under contract, the rest of the body is not executed" % c.qualname)
+            outs = []
+        else:
+            outs = self.exec_block(fn.body, st.copy() if c.self_compose else st)
         if c.self_compose:
             self.self_composition(c, fn, st, outs, mark)
         # nested raise outcomes are already Outcome('raise')
@@ -93,6 +97,8 @@ class VerifyMixin(object):
                 self.check_raise(c, o, old)
             else:
                 raise OutsideSubset("break/continue escaping function")
+        for idx, (code_text, free, spec_text) in enumerate(c.expr_eq):
+            self.check_expr_eq(c, fn, old, idx, code_text, free, spec_text)
         info = dict(file=c.module, qualname=c.qualname, lines=[fn.lineno, fn.end_lineno], sha1=mod.sha1(fn),
                     decorators=[ast.unparse(d) for d in fn.decorator_list], paths=n_paths)
         self.contract = None
@@ -125,6 +131,31 @@ class VerifyMixin(object):
                     self.oblige(both, "deterministic", text, "%s is the same whatever order sets / dicts are iterated in" % text, g, None)
                     n += 1
         return n
+
+    def check_expr_eq(self, c, fn, old, idx, code_text, free, spec_text):
+        """A sub-expression of the real body (found by its text) equals a specification expression for all values of its
+        free variables."""
+        want = ast.unparse(ast.parse(code_text.strip(), mode="eval").body)
+        node = None
+        for n in ast.walk(fn):
+            if isinstance(n, ast.expr) and ast.unparse(n) == want:
+                node = n
+                break
+        if node is None:
+            raise OutsideSubset("expression `%s` named by the sidecar is not in %s any more" % (code_text, c.qualname))
+        st = old.copy()
+        st.old = old
+        for name, ty in free.items():
+            v = fresh(ty, name)
+            st.assume(*wf(v))
+            st.env[name] = v
+        self.spec_depth += 1
+        try:
+            cv = self.ev1(node, st)
+        finally:
+            self.spec_depth -= 1
+        sv = self.spec(spec_text, st)
+        self.oblige(st, "expr", "X%d" % idx, "`%s` == %s" % (code_text, spec_text), core.equals(cv, sv), getattr(node, "lineno", None))
 
     def _post_state(self, c, o, old):
         st = o.st.copy()
